@@ -806,6 +806,20 @@ def r7_schema_named_columns_present(ctx):
                                     filt = True
                     if isinstance(x, ast.Call) and callee_last(x) in ("intersection",) and data in txt(x):
                         filt = True
+            if filt and isinstance(node, ast.Call):
+                # ... and an empty selection is skipped: `duplicated(subset=[])` / `select([]).is_duplicated()` raise on the
+                # empty list that the filter leaves when none of the listed columns is there (an optional column not supplied)
+                from ..cfg import cfg_of as _cfg
+                from ..util import enclosing_stmt as _es
+                cfg7 = _cfg(f.node)
+                nd7 = cfg7.node_of(_es(node))
+                an = txt(a) if isinstance(a, ast.Name) else None
+                guards7 = [(txt(t), pol) for t, pol in (cfg7.guards(nd7.id) if nd7 is not None else [])]
+                skipped = an is not None and any((g == an and pol) or (g in (f"not {an}", f"not({an})") and not pol) or (g.startswith(f"len({an})") and pol) for g, pol in guards7)
+                ctx.ob("R7", f0, f"{flavour} joint uniqueness: nothing is selected when none of the listed columns is present", skipped,
+                       "empty column list skipped" if skipped else
+                       f"`{txt(node)[:50]}` also runs with an empty `{an}`: DataFrameSchema({{'a': Column(int), 'b': Column(int, required=False)}}, unique=['b']) on a frame without "
+                       "`b` raises ValueError / ComputeError out of validate instead of accepting the frame", f0.loc(node))
             ctx.ob("R7", f0, f"{flavour} joint uniqueness: `{txt(node)[:50]}` selects only columns the frame has", filt,
                    "column list is filtered by membership in the frame's columns" if filt else
                    f"`{txt(a)}` comes straight from schema.unique: with lazy=True (presence failure only collected) or an optional absent column "
